@@ -126,7 +126,7 @@ def jobs_mu(tier):
     for cfg in ('c-futex', 'c-binsem'):
         # plain lockers arriving after a conditional wait that timed out (C02: nobody may sleep on a free mutex)
         for p in progs.MW_FREE_MUTEX: J.append(Job(cfg, 'muwait', p, 2 if tier == 'quick' else 3, 1))
-        for p in progs.MW_FREE_MUTEX4: J.append(Job(cfg, 'muwait', p, 1 if tier == 'quick' else 2, 1))
+        for p in progs.MW_FREE_MUTEX4: J.append(Job(cfg, 'muwait', p, 1, 1))
         for p in ('wL:late', 'wL:alt', 'wR:alt', 'rL:fixed'):
             J.append(Job(cfg, 'adversary', p, 1 if tier == 'quick' else (2 if p == 'wL:late' else 1), 0, ('--strict',)))
     return J
